@@ -217,6 +217,39 @@ def run(prop, tier, seed):
     rep = vlib.Report(prop)
     which = ["scan"] if prop == "C09" else ["point"] if prop == "C03" else ["point", "scan"]
     cov = validate_runs(prop, tier, seed, rep, which)
+    if prop in ("C03", "C04", "C14"):
+        # the design-level model: exhaustive TLC per scenario, protection flags, killer schedules
+        import olcart
+        gen_n, dist, names = olcart.model_check(tier)
+        kill = olcart.killers()
+        cov["states"] += dist
+        cov["transitions"] += gen_n
+        cov["olcart_model"] = {"scenarios_checked_exhaustively": names, "distinct_states": dist, "generated_states": gen_n,
+                               "invariants": "NoBadOutcome(Linearizable, NoUseAfterFree) OneWriterPerNode NoLockHeldAtReturn NoOrphanLock SpinnersHoldNothing FinalTreeIsMap NoReachableRetired NothingLeaked ShapeOK + deadlock",
+                               "protection_flags": {f: ({"refuted_by_TLC": True, "clause": k["clause"] or k["violation"], "killer_schedule": k["schedule"]}
+                                                        if k.get("refuted") else
+                                                        {"refuted_by_TLC": False, "note": "not needed by any listed property at the model's granularity (field segments are atomic)"})
+                                                    for f, k in kill.items()}}
+        if prop == "C03":
+            d = os.path.join(vlib.CACHE, "olc_kill_%d" % os.getpid())
+            shutil.rmtree(d, ignore_errors=True)
+            os.makedirs(d)
+            exe = vlib.build("olc_driver", ["olc_driver.cpp"], "dbg")
+            n_sig, mism = olcart.signature_conformance(exe, d)
+            cov["olcart_model"]["signature_conformance"] = {"operations_compared": n_sig, "step_structure_mismatches": mism}
+            for flag, evf in olcart.replay_killers(kill, exe, d):
+                n, rej, st, sk = validate_file(evf, prop, d)
+                cov["traces_validated_against_impl"] += n
+                for e, idx in rej:
+                    hdr = json.loads(e[0])
+                    ev = e[idx].strip() if 0 <= idx < len(e) else "<end>"
+                    os.makedirs(vlib.REPLAYS, exist_ok=True)
+                    keep = os.path.join(vlib.REPLAYS, "%s_killer_%s.ndjson" % (prop, flag))
+                    with open(keep, "w") as fh:
+                        fh.writelines(e)
+                    rep.violation("killer schedule of protection %s (TLC counterexample of OlcArt with the flag FALSE) reproduces on the real code: schedule '%s': OlcTrace cannot explain event %d: %s"
+                                  % (flag, hdr.get("sched"), idx + 1, ev[:500]), {"flag": flag, "trace": keep, "schedule": hdr.get("sched")})
+            shutil.rmtree(d, ignore_errors=True)
     rc = rep.finish()
     vlib.write_evidence(prop, tier, seed, "model_checking", cov,
                         vlib.ASSUME_COMMON + ["preemption bound and scenario catalogue as listed; protected-field segments are atomic in the bounded search (field-granular in the random runs)",
